@@ -690,7 +690,7 @@ func checkC18() fw.Check {
 		Gen: func(tier string, seed int64) []fw.Case {
 			n := 120
 			if tier == "thorough" {
-				n = 12000
+				n = 50000
 			}
 			var cases []fw.Case
 			for i := 0; i < n; i++ {
